@@ -538,6 +538,12 @@ func (c *Ctx) query(o *Obligation, withModel bool, dropQuant bool) string {
 	}
 	b.WriteString("(set-logic ALL)\n")
 	b.WriteString(prelude)
+	if rel["sx.emptyobj"] {
+		b.WriteString("(declare-const sx.emptyobj (Array (_ BitVec 64) Str))\n")
+		if !dropQuant {
+			b.WriteString("(assert (forall ((o (_ BitVec 64))) (= (select sx.emptyobj o) sx.empty)))\n")
+		}
+	}
 	for _, s := range c.strOrder {
 		t := c.strLits[s]
 		if rel[t.S] {
